@@ -97,6 +97,11 @@ func vCert(d vCertDesc) *x509.Certificate {
 	return c
 }
 
+// vAnd / vOr combine already evaluated (possibly symbolic) booleans. Keeping the operands outside
+// of short-circuit arms lets the engine turn the connective into an ite instead of a fork.
+func vAnd(a, b bool) bool { return a && b }
+func vOr(a, b bool) bool  { return a || b }
+
 // vIsTRCClass: the three certificate classes a TRC may contain.
 func vIsTRCClass(class int) bool {
 	return class == vcSensitive || class == vcRegular || class == vcRoot
